@@ -19,7 +19,22 @@ func main() {
 	}
 	ops := 0
 	for round := 0; round < outer; round++ {
-		for _, sc := range scen.Scenarios() {
+		scs := scen.Scenarios()
+		// S10 spells its identities differently in every instance: whatever the library remembers per IRI or per query is filled
+		// in concurrently only ONCE per instance, in the first microseconds. Many fresh instances with few rounds each give the
+		// detector many such first moments (one instance catches an unsynchronised first-time write only now and then).
+		extra := 60
+		if goroutines > 16 {
+			extra = 200
+		}
+		for i := 0; i < extra; i++ {
+			scs = append(scs, scen.Get(10))
+		}
+		for si, sc := range scs {
+			rounds := rounds
+			if si >= scen.Count {
+				rounds = 3
+			}
 			// the goroutines run FIRST (on values nobody has touched: lazily filled tables and caches are filled concurrently);
 			// the sequential reference is computed afterwards on a fresh instance, and the recorded results are compared with it
 			var want []string
@@ -29,12 +44,16 @@ func main() {
 			for k := range got {
 				got[k] = map[string]int{}
 			}
+			// all goroutines are released together: started one after the other, the first would be done with its first call
+			// (microseconds) before the last exists, and nothing would ever run a first-time path concurrently
+			start := make(chan struct{})
 			for g := 0; g < goroutines; g++ {
 				wg.Add(1)
 				go func(g int) {
 					defer wg.Done()
 					k := g % len(sc.Threads)
 					local := map[string]int{}
+					<-start
 					for r := 0; r < rounds; r++ {
 						local[sc.Threads[k].Run()]++
 					}
@@ -45,10 +64,11 @@ func main() {
 					mu.Unlock()
 				}(g)
 			}
+			close(start)
 			wg.Wait()
 			// sequential reference on a fresh instance of the same scenario
-			for _, r := range scen.Scenarios() {
-				if r.Name == sc.Name {
+			for ri := 0; ri < scen.Count; ri++ {
+				if r := scen.Get(ri); r.Name == sc.Name {
 					for _, op := range r.Threads {
 						want = append(want, op.Run())
 					}
